@@ -1,5 +1,5 @@
 PROP = dict(
-    go='c17', n_quick=400, n_thorough=8000,
+    go='c17', n_quick=800, n_thorough=8000,
     coq_header='From LC Require Import Lib.Bytes Model.StageLine Model.StageDoc Model.StageWild Model.StageWildDoc Model.Recipe Model.RecipeDoc Cases.C17.\nOpen Scope string_scope.\n',
     case_type='C17.case', verdict='C17.verdict', explain='C17.model',
     rule='TODO',
